@@ -33,7 +33,7 @@ LEVEL = "model_checking"
 FUNCV = ["Fa", "Fu", "Fn", "Fm", "Ca", "Cu", "Cn", "Cm", "Sa", "Su", "Sn", "Sm",
          "Pa", "Pu", "Pn", "Paa", "Pua", "Pau", "Pnn", "Paaa", "Puau", "Puua"]
 ALLV = FUNCV + ["Dt"]
-INVARIANTS = ["RouteEq", "ReturnsSelf", "InheritedUntouched", "AliasUntouched", "ClassIdempotent",
+INVARIANTS = ["RouteEq", "ReturnsSelf", "NestedDecorated", "InheritedUntouched", "AliasUntouched", "ClassIdempotent",
               "FuncIdempotent", "NoopIdentity", "OptimizedIdentity", "Wraps", "WrapsOriginal", "DepthOne",
               "KindKept"]
 ALL_ORDERS = ["single", "baseonly", "basefirst", "derivedfirst", "twice", "memberclass", "classmember",
@@ -42,9 +42,10 @@ ALL_ORDERS = ["single", "baseonly", "basefirst", "derivedfirst", "twice", "membe
 ACTIONS = ["DecorateClass", "DecorateMember", "MakeDataclass", "CheckMarkHit", "CheckMarkMiss", "WalkFuncLike",
            "WalkClassTaken", "WalkClassSkipped", "WalkData", "SetMark"]
 
-GROUP_DEFAULTS = dict(VB=["Fa"], VB2=["none"], VD=["Fa"], VO=["none"], VI=["none"], VDeep=["none"], Aliases=["none"],
+GROUP_DEFAULTS = dict(VB=["Fa"], VB2=["none"], VD=["Fa"], VO=["none"], VI=["none"], VDeep=["none"],
+                      MB=["type"], MI=["type"], ME=["type"], Aliases=["none"],
                       DCs=["none"], Orders=["single"], Confs=["D", "O0", "N"], Free=False, MaxOps=2)
-GROUP_FIELDS = ["VB", "VB2", "VD", "VO", "VI", "VDeep", "Aliases", "DCs", "Orders", "Confs", "Free", "MaxOps"]
+GROUP_FIELDS = ["VB", "VB2", "VD", "VO", "VI", "VDeep", "MB", "MI", "ME", "Aliases", "DCs", "Orders", "Confs", "Free", "MaxOps"]
 
 
 def _tla(v):
@@ -67,7 +68,7 @@ def _model(d, name, groups, consts, invariants):
         defs.append(f'Group("{label}", ' + ", ".join(_tla(full[f]) for f in GROUP_FIELDS) + ")")
     mod = (f"---- MODULE {name} ----\nEXTENDS ClassDecor\nGroupsDef == {{\n  " + ",\n  ".join(defs) + " }\n====\n")
     spec = write_file(d, f"{name}.tla", mod)
-    c = dict(Rule="nested", Mutant="none", Optimized=False, Emit=True)
+    c = dict(Rule="nested", SubRule="mro", Mutant="none", Optimized=False, Emit=True)
     c.update(consts)
     lines = ["SPECIFICATION Spec", "CONSTANTS"] + [f"  {k} = {_tla(v)}" for k, v in c.items()]
     lines.append("  Groups <- GroupsDef")
@@ -81,13 +82,14 @@ KIND_TYPES = {}
 
 
 def _kind_of(val):
+    """'+' marks an instance of a strict subclass of the builtin descriptor type."""
     import types
     if isinstance(val, classmethod):
-        return "classmethod"
+        return "classmethod" if type(val) is classmethod else "classmethod+"
     if isinstance(val, staticmethod):
-        return "staticmethod"
+        return "staticmethod" if type(val) is staticmethod else "staticmethod+"
     if isinstance(val, property):
-        return "property"
+        return "property" if type(val) is property else "property+"
     if isinstance(val, types.FunctionType):
         return "func"
     if isinstance(val, type):
@@ -96,7 +98,7 @@ def _kind_of(val):
 
 
 def _parts_of(val):
-    k = _kind_of(val)
+    k = _kind_of(val).rstrip("+")
     if k == "func":
         return [val, None, None]
     if k in ("classmethod", "staticmethod"):
@@ -104,6 +106,16 @@ def _parts_of(val):
     if k == "property":
         return [val.fget, val.fset, val.fdel]
     return [None, None, None]
+
+
+def _inst(K):
+    """an instance to call members through: Enum classes have members, Protocol classes need an implementation."""
+    import enum
+    if isinstance(K, enum.EnumMeta):
+        return next(iter(K))
+    if getattr(K, "_is_protocol", False):
+        return type(K.__name__ + "Impl", (K,), {})()
+    return K()
 
 
 _DECO = {}
@@ -152,7 +164,9 @@ class World:
         mod = types.ModuleType(self.modname)          # dataclass() looks the module up in sys.modules
         sys.modules[self.modname] = mod
         self.ns = mod.__dict__
-        exec("from typing import no_type_check\n", self.ns)
+        exec("import abc, enum, typing\nfrom typing import no_type_check\n"
+             f"class {self.P}Meta(type): pass\n"
+             f"class {self.P}SubCM(classmethod): pass\nclass {self.P}SubSM(staticmethod): pass\n", self.ns)
         # dont_inherit: this driver's "from __future__ import annotations" must not leak into the case
         exec(compile(self.src, f"<c13:{self.P}>", "exec", dont_inherit=True), self.ns)
         self.orig = {}          # function id -> original function object
@@ -207,19 +221,28 @@ class World:
     def _class_src(self, c, ind, obs0):
         pad = "    " * ind
         cl = self.classes[c - 1]
-        bases = ", ".join(self.pyname(b) for b in cl["bases"])
+        bases = [self.pyname(b) for b in cl["bases"]]
+        meta = cl.get("meta", "type")
+        if not bases:          # (a derived class inherits the metaclass of its base)
+            bases += {"abc": ["abc.ABC"], "enum": ["enum.Enum"], "protocol": ["typing.Protocol"],
+                      "custom": [f"metaclass={self.P}Meta"]}.get(meta, [])
+        bases = ", ".join(bases)
         out = [f"{pad}class {self.pyname(c)}({bases}):" if bases else f"{pad}class {self.pyname(c)}:",
                f"{pad}    'class {''.join(cl['qn'])}'"]
         ip = pad + "    "
+        if meta == "enum" and not cl["bases"]:
+            out.append(f"{ip}RED = 1")
         for s in obs0[c - 1]["slots"]:
             name, kind = s["name"], s["kind"]
             ids = [p["origin"] for p in s["parts"]]
             if kind == "func":
                 out += self._func_src(ip, name, ids[0], "self", "call")
             elif kind == "classmethod":
-                out += [f"{ip}@classmethod"] + self._func_src(ip, name, ids[0], "cls", "call")
+                out += [f"{ip}@{self.P + 'SubCM' if s.get('sub') else 'classmethod'}"] + \
+                    self._func_src(ip, name, ids[0], "cls", "call")
             elif kind == "staticmethod":
-                out += [f"{ip}@staticmethod"] + self._func_src(ip, name, ids[0], "", "call")
+                out += [f"{ip}@{self.P + 'SubSM' if s.get('sub') else 'staticmethod'}"] + \
+                    self._func_src(ip, name, ids[0], "", "call")
             elif kind == "property":
                 out += [f"{ip}@property"] + self._func_src(ip, name, ids[0], "self", "get")
                 if ids[1]:
@@ -286,6 +309,7 @@ class World:
         for the classes lexically nested in it."""
         for s in slots_of(c):
             if s["kind"] in ("func", "classmethod", "staticmethod", "property"):
+                self.last = (c, s["name"])
                 self.op_member(c, s["name"], k)
             elif s["kind"] in ("nested", "alias") and self.classes[s["cls"] - 1]["owner"] == c:
                 self.by_hand(s["cls"], k, slots_of)
@@ -356,37 +380,42 @@ class World:
             good, bad = run(lambda: K(fld=1).fld), run(lambda: K(fld=BAD).fld)
             want_good, want_bad = 1, BAD
         elif n == "__repr__":
-            good = bad = run(lambda: repr(K()) and 1)
+            good = bad = run(lambda: repr(_inst(K)) and 1)
             want_good = want_bad = 1
         elif n == "__eq__":
-            good = bad = run(lambda: (K() == K()) and 1)
+            good = bad = run(lambda: (_inst(K) == _inst(K)) and 1)
             want_good = want_bad = 1
         elif kind in ("func", "classmethod", "staticmethod"):
             def target():
-                return getattr(K() if kind == "func" else K, n)
+                return getattr(_inst(K) if kind == "func" else K, n)
             good, bad = run(lambda: target()(1, y=2)), run(lambda: target()(BAD))
             want_good, want_bad = 1, BAD
+            if kind != "func" and good == ["ok", 1]:
+                # class and static methods are also callable through an instance
+                vi = run(lambda: getattr(_inst(K), n)(1, y=2))
+                if vi != ["ok", 1]:
+                    good = [f"via-instance:{vi[0]}", None]
             # the keyword-only parameter is checked like the positional one
             bad_kw = run(lambda: target()(1, y=BAD))
             if bad_kw[0] != bad[0]:
                 bad = [f"positional:{bad[0]}|keyword:{bad_kw[0]}", None]
         elif kind == "property" and p == 1:
             def get(x):
-                i = K()
+                i = _inst(K)
                 i.__dict__["_v_" + n] = x
                 return getattr(i, n)
             good, bad = run(lambda: get(1)), run(lambda: get(BAD))
             want_good, want_bad = 1, BAD
         elif kind == "property" and p == 2:
             def put(x):
-                i = K()
+                i = _inst(K)
                 setattr(i, n, x)
                 return i.__dict__["_v_" + n]
             good, bad = run(lambda: put(1)), run(lambda: put(BAD))
             want_good, want_bad = 1, BAD
         elif kind == "property" and p == 3:
             def rm():
-                i = K()
+                i = _inst(K)
                 i.__dict__["_v_" + n] = 1
                 delattr(i, n)
                 return ("_v_" + n) not in i.__dict__ and 1
@@ -411,7 +440,7 @@ def _compare(world, real, row, route, step):
     for c, o in real["obs"].items():
         for s_real, s in zip(o["slots"], row["obs"][c - 1]["slots"]):
             n = s["name"]
-            want_kind = {"nested": "class", "alias": "class"}.get(s["kind"], s["kind"])
+            want_kind = {"nested": "class", "alias": "class"}.get(s["kind"], s["kind"]) + ("+" if s.get("sub") else "")
             if s["kind"] == "data":
                 if not s_real.get("is", False):
                     add("data-identity", c, n, 0, s_real["kind"], "the original object")
@@ -467,6 +496,51 @@ def _fingerprint(real, P):
     return {"obs": obs, "verdicts": real["verdicts"]}
 
 
+class _Machinery(BaseException):
+    pass
+
+
+def _apply_op(out, stats, alt, alt_mm, step, row, op, route, w, slots_of):
+    """perform one operation of the history on one route; record what it returned."""
+    if op["t"] == "C":
+        if route == "A":
+            K = w.cls(op["c"])
+            try:
+                r = _deco(op["k"])(K)
+                got = "cls" if r is K else "another object"
+            except RecursionError:
+                got = "raise"
+            if got != row["ret"]["t"]:
+                out["mismatches"].append({"route": "A", "step": step, "aspect": "returns-class", "c": op["c"],
+                                          "n": "", "p": 0, "got": {"raise": "RecursionError"}.get(got, got),
+                                          "want": "the class itself"})
+            if alt is not None and got != alt[step]["ret"]["t"]:
+                alt_mm.append("ret")
+        else:
+            w.by_hand(op["c"], op["k"], slots_of)
+    elif op["t"] == "M":
+        name = slots_of(op["c"])[op["i"] - 1]["name"]
+        w.last = (op["c"], name)
+        old, new = w.op_member(op["c"], name, op["k"])
+        po, pn = _parts_of(old), _parts_of(new)
+        for p in range(3):
+            if po[p] is None:
+                continue
+            same = pn[p] is po[p]
+            if same != row["ret"]["same"][p]:
+                out["mismatches"].append({"route": route, "step": step, "aspect": "returned-identity",
+                                          "c": op["c"], "n": name, "p": p + 1, "got": same,
+                                          "want": row["ret"]["same"][p]})
+        if row["ret"]["obj"] == "same" and new is not old:
+            out["mismatches"].append({"route": route, "step": step, "aspect": "returned-object", "c": op["c"],
+                                      "n": name, "p": 0, "got": "another object", "want": "the argument"})
+        stats["ident_" + str(all(row["ret"]["same"]))] = stats.get("ident_" + str(all(row["ret"]["same"])), 0) + 1
+    elif op["t"] == "DC":
+        if not w.op_dataclass(op["c"], row["obs"][op["c"] - 1]["slots"]):
+            raise _Machinery("dataclass() returned another class")
+        w._snapshot_extra(op["c"], row["obs"][op["c"] - 1]["slots"])
+
+
 def replay_case(case):
     """Run one history through both routes; compare with the rows after every operation."""
     rows = case["rows"]
@@ -476,48 +550,26 @@ def replay_case(case):
     worlds = {"A": World(case, "A"), "B": World(case, "B")}
     alt_mm = []
     reals = {}
+    aborted = False
     for step, row in enumerate(rows):
         if step > 0:
             op = row["hist"][-1]
             prev = rows[step - 1]
             for route, w in worlds.items():
                 slots_of = lambda c, prev=prev: prev["obs"][c - 1]["slots"]      # noqa
-                if op["t"] == "C":
-                    if route == "A":
-                        K = w.cls(op["c"])
-                        try:
-                            r = _deco(op["k"])(K)
-                            got = "cls" if r is K else "another object"
-                        except RecursionError:
-                            got = "raise"
-                        if got != row["ret"]["t"]:
-                            out["mismatches"].append({"route": "A", "step": step, "aspect": "returns-class", "c": op["c"],
-                                                      "n": "", "p": 0, "got": {"raise": "RecursionError"}.get(got, got),
-                                                      "want": "the class itself"})
-                        if alt is not None and got != alt[step]["ret"]["t"]:
-                            alt_mm.append("ret")
-                    else:
-                        w.by_hand(op["c"], op["k"], slots_of)
-                elif op["t"] == "M":
-                    name = slots_of(op["c"])[op["i"] - 1]["name"]
-                    old, new = w.op_member(op["c"], name, op["k"])
-                    po, pn = _parts_of(old), _parts_of(new)
-                    for p in range(3):
-                        if po[p] is None:
-                            continue
-                        same = pn[p] is po[p]
-                        if same != row["ret"]["same"][p]:
-                            out["mismatches"].append({"route": route, "step": step, "aspect": "returned-identity",
-                                                      "c": op["c"], "n": name, "p": p + 1, "got": same,
-                                                      "want": row["ret"]["same"][p]})
-                    if row["ret"]["obj"] == "same" and new is not old:
-                        out["mismatches"].append({"route": route, "step": step, "aspect": "returned-object", "c": op["c"],
-                                                  "n": name, "p": 0, "got": "another object", "want": "the argument"})
-                    stats["ident_" + str(all(row["ret"]["same"]))] = stats.get("ident_" + str(all(row["ret"]["same"])), 0) + 1
-                elif op["t"] == "DC":
-                    if not w.op_dataclass(op["c"], row["obs"][op["c"] - 1]["slots"]):
-                        raise RuntimeError("dataclass() returned another class")
-                    w._snapshot_extra(op["c"], row["obs"][op["c"] - 1]["slots"])
+                w.last = (op["c"], "")
+                try:
+                    _apply_op(out, stats, alt, alt_mm, step, row, op, route, w, slots_of)
+                except RecursionError:
+                    raise
+                except Exception as ex:      # noqa: the decoration itself raised
+                    if row["ret"]["t"] != "raise":
+                        out["mismatches"].append({"route": route, "step": step, "aspect": "decoration-raises",
+                                                  "c": w.last[0], "n": w.last[1], "p": 0,
+                                                  "got": f"{type(ex).__name__}: {str(ex)[:120]}", "want": "no exception"})
+                    aborted = True
+            if aborted:
+                break
         for route, w in worlds.items():
             real = w.observe(row)
             reals[route] = real
@@ -545,6 +597,9 @@ def replay_case(case):
                 stats["inherited"] = stats.get("inherited", 0) + 1
         for c, cl in enumerate(case["classes"], 1):
             if cl["present"]:
+                if row["obs"][c - 1]["mark"] and cl["owner"]:
+                    key = "nested_marked_" + cl.get("meta", "type")
+                    stats[key] = stats.get(key, 0) + 1
                 for s in row["obs"][c - 1]["slots"]:
                     for p in s["parts"]:
                         if p["origin"]:
@@ -646,7 +701,24 @@ def _report(rep, case, res, origin):
     for m in res["mismatches"]:
         upto = hist[:m["step"]]
         ops = [[o["t"], CLSNAME[o["c"]], o["i"], o["k"]] for o in upto]
-        if res.get("explained") == "Rule=prefix" and u["al"] == "Self":
+        variant = u.get(ROLE.get((m["c"], m["n"]), ""), "-")
+        subs = sorted({v for v in u.values() if v in ("Cs", "Ss")})
+        if m["aspect"] == "decoration-raises" and "Cs" in subs and "BeartypeDecorWrappeeException" in str(m["got"]) \
+                and "ncallable" in str(m["got"]):
+            key = {"defect": "a member whose type is a subclass of classmethod makes the decoration raise",
+                   "exception": "BeartypeDecorWrappeeException (Uncallable ... not decoratable by @beartype)"}
+            what = (f"a classmethod-subclass member (e.g. abc.abstractclassmethod) makes "
+                    f"{_fmt_op(hist[m['step'] - 1], case)} raise {m['got']!r} (route {m['route']}) instead of "
+                    f"decorating it like a classmethod and returning the class; ClassDecor.tla SubRule=\"mro\" "
+                    f"(real code: SubRule=\"exact\", dispatch on the exact type name in _decornontypemap.py)")
+        elif variant == "Ss" and ((m["aspect"] == "kind" and m["got"] == "func") or
+                                  (m["aspect"] == "verdict-good" and str(m["got"]).startswith("via-instance"))):
+            key = {"defect": "a member whose type is a subclass of staticmethod is replaced by a plain function",
+                   "consequence": "descriptor kind lost; a correct call through an instance is rejected"}
+            what = (f"a staticmethod-subclass member (e.g. abc.abstractstaticmethod) is handled as a pseudo-callable: "
+                    f"after {[_fmt_op(o, case) for o in upto]} {m['aspect']} of {CLSNAME[m['c']]}.{m['n']} is "
+                    f"{m['got']!r}, C13 (descriptor kind kept, call for call equivalent) gives {m['want']!r}")
+        elif res.get("explained") == "Rule=prefix" and u["al"] == "Self":
             key = {"defect": "class referencing itself cannot be decorated",
                    "relation": "cls.__qualname__.startswith(cls.__qualname__): unbounded recursion of beartype_type"}
             what = (f"a class that holds a reference to itself (Derived.ref = Derived) makes beartype(Derived) raise "
@@ -662,7 +734,6 @@ def _report(rep, case, res, origin):
                     f"defines, recursively for classes NESTED in it) gives {m['want']!r}; the real code matches "
                     f"ClassDecor.tla with Rule=\"prefix\" (decortype.py: attr_value.__qualname__.startswith(cls.__qualname__))")
         else:
-            variant = u.get(ROLE.get((m["c"], m["n"]), ""), "-")
             key = {"aspect": m["aspect"], "route": m["route"], "class": CLSNAME.get(m["c"], m["c"]), "member": m["n"],
                    "variant": variant, "part": m["p"], "ops": ops, "got": m["got"], "want": m["want"],
                    "optimized": case["rows"][0]["optimized"]}
@@ -686,7 +757,7 @@ def _run_model(d, name, groups, consts, invariants=None, workers=16):
 
 # one configuration for all spec mutants (DefaultGroups of ClassDecor.tla; unmutated it is part of the
 # main run as group "default" and satisfies every invariant): each mutant must violate a clause named for it
-DEFAULT_GROUP = ("default", dict(VD=["Fa", "Ca", "Fu"], VI=["none", "Sa"], Aliases=["none", "Aux", "DerivedAux", "Self"],
+DEFAULT_GROUP = ("default", dict(VD=["Fa", "Ca", "Fu", "Cs", "Ss"], VI=["none", "Sa"], MI=["type", "abc", "enum"], Aliases=["none", "Aux", "DerivedAux", "Self"],
                                  Orders=["single", "memberclass", "membertwice"], Confs=["D", "N"]))
 MUTANTS = [
     ("inherited", ["InheritedUntouched", "RouteEq"], dict(Mutant="inherited")),
@@ -697,13 +768,17 @@ MUTANTS = [
     ("nometa", ["WrapsOriginal"], dict(Mutant="nometa")),
     ("wrapunann", ["NoopIdentity"], dict(Mutant="wrapunann")),
     ("nowrap", ["Wraps"], dict(Mutant="nowrap")),
+    # value.__class__ in TYPES_BEARTYPEABLE instead of isinstance: nested ABC / Enum / ... classes skipped
+    ("exacttype", ["NestedDecorated", "RouteEq"], dict(Mutant="exacttype")),
+    # 0.23.0: dispatch on the exact descriptor type name
+    ("subrule-exact-0.23.0", ["ReturnsSelf", "KindKept", "RouteEq"], dict(SubRule="exact")),
 ]
 
 
 def _submit_mutants(d, ex):
     futs = {}
     for label, invs, consts in MUTANTS:
-        c = dict(Rule="nested", Mutant="none", Optimized=False, Emit=False)
+        c = dict(Rule="nested", SubRule="mro", Mutant="none", Optimized=False, Emit=False)
         c.update(consts)
         lines = ["SPECIFICATION Spec", "CONSTANTS"] + [f"  {k} = {_tla(v)}" for k, v in c.items()]
         lines += ["  Groups <- DefaultGroups"] + [f"INVARIANT {inv}" for inv in invs] + ["CHECK_DEADLOCK FALSE"]
@@ -749,6 +824,16 @@ def _groups(tier):
         g.append(("free-o0", dict(Free=True, MaxOps=3, VB=["Fa"], VD=["Pua"], VI=["none"], Orders=[], Confs=["D", "O0"])))
         g.append(("base-x-derived", dict(VB=FUNCV, VD=FUNCV, Orders=["basefirst", "derivedfirst", "twice"], Confs=["D", "N"])))
         g.append(("deep", dict(VI=some, VDeep=ALLV, VD=["Fa"], Orders=["single", "innerfirst", "outerfirst"])))
+    metas = ["type", "abc", "custom", "enum", "protocol"]
+    g.append(("meta-nested", dict(VI=["Fa", "Cn", "Sa", "Pua"] if q else ALLV, MI=metas, VDeep=["none", "Fa"], ME=["type"] if q else metas,
+                                  Orders=["single", "innerfirst"] if q else ["single", "innerfirst", "outerfirst", "twice"],
+                                  Confs=["D", "N"] if q else ["D", "O0", "N"])))
+    g.append(("meta-top", dict(VB=["Fa", "Paa"] if q else some, MB=["abc", "custom", "protocol"], VD=["Fa"] if q else ["Fa", "Sa"],
+                               VI=["none", "Fa"], MI=["type", "enum"] if q else metas,
+                               Orders=["basefirst", "derivedfirst"] if q else ["baseonly", "basefirst", "derivedfirst"],
+                               Confs=["D", "N"])))
+    g.append(("subdescr", dict(VD=["Cs", "Ss"], VI=["none", "Ss", "Cs"], MI=["type", "abc"],
+                               Orders=["single", "memberclass", "classmember", "twice"], Confs=["D", "N"])))
     g.append(DEFAULT_GROUP)
     return g
 
@@ -867,7 +952,8 @@ def run(rep, tier, seed):
         # ---- non-vacuity of the binding ------------------------------------------
         need = ["v_P:D", "v_P:N", "v_R:D", "v_R:N", "v_ok", "inherited", "func_wrapped", "func_plain", "classmethod_wrapped",
                 "classmethod_plain", "staticmethod_wrapped", "staticmethod_plain", "property_wrapped", "property_plain",
-                "ident_True", "ident_False"]
+                "ident_True", "ident_False", "nested_marked_type", "nested_marked_abc", "nested_marked_enum",
+                "nested_marked_custom", "nested_marked_protocol"]
         missing = [k2 for k2 in need if not stats.get(k2)]
         if missing:
             rep.machinery(f"vacuous replay: never exercised {missing}")
